@@ -486,6 +486,25 @@ def npS(p):
 
 
 # ------------------------------------------------------------------ scenarios
+def _decoy(dc, ckw, call):
+    """ANOTHER instance of the same class with other parameters serves a request with the VERY SAME argument objects first
+    (the control array u included): state shared between instances -- a class-level or module-level cache keyed by the
+    argument's identity -- must not leak into the instance under test"""
+    one = Fr(1)
+    shift = lambda x: [shift(v) for v in x] if isinstance(x, list) else x + one
+    d2 = {k: v for k, v in dc.items() if k not in ("Sig0", "np_params", "twice", "f32_Mb", "special")}
+    d2["Sig"] = [[[2 * v for v in row] for row in S] for S in dc["Sig"]]
+    for k in ("M", "b", "W", "c0"):
+        if d2.get(k) is not None:
+            d2[k] = shift(d2[k])
+    d2["ctor"] = "Sigma"
+    try:
+        o2, _ = _build_cond(d2)
+        call(o2, ckw)
+    except Exception:
+        pass
+
+
 def _shifted(p):
     """another density of the same shape (same class): the argument of a later, unrelated request to the same object"""
     return type(p)(Sigma=2.0 * p.Sigma, mu=p.mu + 1.0)
@@ -760,6 +779,7 @@ def run_impl(d):
     site = "cond[%s]." % d["c"]["cls"] if "c" in d else ""
     if scn == "cond_x":
         xs = jarr(d["xs"])
+        _decoy(d["c"], ckw, lambda c2, kw: c2.condition_on_x_u(xs, **kw) if nn else c2.condition_on_x(xs))
         o = c.condition_on_x_u(xs, **ckw) if nn else c.condition_on_x(xs)
         _ = c.condition_on_x_u(xs + 1.0, **ckw) if nn else c.condition_on_x(xs + 1.0)   # a later request must not touch the held result
         obs_all(ob, o, d["ys"])
@@ -782,6 +802,7 @@ def run_impl(d):
         return ob, fails
     if scn == "set_y":
         ys = jarr(d["ys"])
+        _decoy(d["c"], ckw, lambda c2, kw: c2.set_y(ys, **kw))
         f = c.set_y(ys, **ckw)
         c.set_y(0.5 * ys + 1.0, **ckw)          # a later request (same N, other data) must not touch the factor returned before
         N = len(d["ys"])
@@ -828,6 +849,7 @@ def run_impl(d):
         emu, eSig = expected_joint(d)
         Dx = d["c"]["Dx"]
         if scn == "joint":
+            _decoy(d["c"], ckw, lambda c2, kw: c2.affine_joint_transformation(p, **kw))
             o = c.affine_joint_transformation(p, **ckw)
             c.affine_joint_transformation(_shifted(p), **ckw)        # later request with another p(x): the held result stays
             zs = [x + y for x, y in zip(d["xs"], d["ys"])]
@@ -843,6 +865,7 @@ def run_impl(d):
             chk(fails, ["C07"], "p(x,y) = p(y|x) p(x)", site + "affine_joint_transformation", e_j, ex)
             consistency(fails, o, site + "affine_joint_transformation", pdf=True)
         else:
+            _decoy(d["c"], ckw, lambda c2, kw: c2.affine_marginal_transformation(p, **kw))
             o = c.affine_marginal_transformation(p, **ckw)
             c.affine_marginal_transformation(_shifted(p), **ckw)
             obs_all(ob, o, d["ys"])
@@ -850,6 +873,7 @@ def run_impl(d):
             consistency(fails, o, site + "affine_marginal_transformation", pdf=True)
         return ob, fails
     if scn == "cond_t":
+        _decoy(d["c"], ckw, lambda c2, kw: c2.affine_conditional_transformation(p, **kw))
         o = c.affine_conditional_transformation(p, **ckw)
         c.affine_conditional_transformation(_shifted(p), **ckw)
         obs_cond(ob, o)
